@@ -50,6 +50,18 @@ Lemma remove_unknown_refuted :
   firmware_outputs w_remove [] = Some [VList [VInt 0]] /\ python_outputs w_remove [] = Some [VList [VInt 1]].
 Proof. vm_compute. auto. Qed.
 
+(* a = 1 / if c: a = 2 / lcd.glyph(0, [a, 0, 0, 0, 0, 0, 0, 0]) *)
+Definition n_aa : ident := [97].
+Definition w_glyph : list stmt :=
+  [ SAssign n_aa (EInt 1);
+    SIf [SAssign n_aa (EInt 2)] [];
+    SObs (OGlyph (EList [EName n_aa; EInt 0; EInt 0; EInt 0; EInt 0; EInt 0; EInt 0; EInt 0])) ].
+Lemma stale_glyph_refuted :
+  firmware_outputs w_glyph [1%nat] = Some [VTuple [VInt 1; VInt 0; VInt 0; VInt 0; VInt 0; VInt 0; VInt 0; VInt 0]] /\
+  python_outputs w_glyph [1%nat] = Some [VTuple [VInt 2; VInt 0; VInt 0; VInt 0; VInt 0; VInt 0; VInt 0; VInt 0]] /\
+  firmware_outputs w_glyph [0%nat] = python_outputs w_glyph [0%nat] /\ is_fresh w_glyph = false.
+Proof. vm_compute. auto. Qed.
+
 Lemma witnesses_outside_guard :
   is_fresh w_shared = false /\ is_fresh w_stale = false /\ is_fresh w_loop = false /\ is_fresh w_remove = false.
 Proof. vm_compute. auto. Qed.
